@@ -36,6 +36,20 @@ def run(ctx):
             for i, ln in enumerate(fh):
                 if i % 401 == 11 and len(ctx.cov["samples"]) < 3:
                     ctx.cov["samples"].append(json.loads(ln))
+    # big bulks delivered several times at once (the window between "is the ID known" and "insert it" only opens for
+    # bulks that take a while to scan): 20 000 documents x 4 concurrent deliveries, totals before and after sealing
+    rc, outs, err = vlib.run_driver(drv, ["-big", "3" if quick else "20"], timeout=1800, ok_codes=range(0, 256))
+    if rc != 0 and not any("what" in o for o in outs):
+        ctx.violation("redeliver:big:crash", {"stderr": err[-2000:]}, what="the store died while a big bulk was delivered four times at once: " + err[-300:])
+    for o in outs:
+        if o.get("infra"):
+            raise vlib.Infra("redeliver -big: " + str(o["infra"]))
+        if o.get("summary"):
+            for k in tot:
+                tot[k] += int(o.get(k, 0))
+        elif "what" in o:
+            import re
+            ctx.violation("redeliver:big:%s" % re.sub(r"[0-9]+", "N", str(o["what"]))[:60], o, what="concurrent re-delivery of a big bulk: " + str(o["what"]))
     ctx.cov["traces_validated_against_impl"] = tot["cases"]
     ctx.cov["evaluations"] = tot["evals"]
     ctx.cov["distinct_nontrivial"] = tot["nontrivial"]
